@@ -323,6 +323,18 @@ func vfInRoute() int {
 	return n
 }
 
+// vfClientHasRecv reports whether a receive-loop goroutine exists for exactly this client
+// (the receiver pointer is the first argument printed in the frame).
+func vfClientHasRecv(c *Client) bool {
+	needle := fmt.Sprintf("gosrc.io/xmpp.(*Client).recv(%p", c)
+	for _, g := range vfGoroutines() {
+		if strings.Contains(g.Text, needle) {
+			return true
+		}
+	}
+	return false
+}
+
 func vfCountFrames(sub string) int {
 	n := 0
 	for _, g := range vfGoroutines() {
